@@ -48,7 +48,7 @@ def gen_actions(rng, market, name, mix):
 
 def gen_live(rng, flavour):
     n_markets = 1 if rng.random() < 0.75 else 2
-    knobs = {"n_updates": (4, rng.choice([6, 10, 14])), "p_removal": 0.0, "p_suspend": 0.0, "p_inplay": 0.0, "p_close": 0.0, "n_runners": (2, 3), "spacing": "normal"}
+    knobs = {"n_updates": (4, rng.choice([6, 10, 14])), "p_removal": 0.0, "p_suspend": rng.choice([0.0, 0.0, 0.6]), "p_inplay": 0.0, "p_close": 0.0, "n_runners": (2, 3), "spacing": "normal"}
     markets = [marketgen.gen_market(rng, i, knobs) for i in range(n_markets)]
     n_strat = rng.choice([1, 1, 2])
     sc = {
